@@ -48,78 +48,103 @@ fn exp_words(op: &Value) -> Vec<u64> {
 }
 
 /// operations common to every field of the library
-fn field_common<F: Field + J>(f: &str, op: &Value) -> Option<Value> {
-    let a = || F::from_j(&op["a"]);
-    let b = || F::from_j(&op["b"]);
-    Some(match f {
-        "add" => {
-            let mut x = a();
-            x.add_assign(&b());
-            x.to_j()
+macro_rules! field_common {
+    ($fname:ident, $F:ty) => {
+        fn $fname(f: &str, op: &Value) -> Option<Value> {
+            let a = || <$F>::from_j(&op["a"]);
+            let b = || <$F>::from_j(&op["b"]);
+            Some(match f {
+                "add" => {
+                    let mut x = a();
+                    x.add_assign(&b());
+                    x.to_j()
+                }
+                "sub" => {
+                    let mut x = a();
+                    x.sub_assign(&b());
+                    x.to_j()
+                }
+                "mul" => {
+                    let mut x = a();
+                    x.mul_assign(&b());
+                    x.to_j()
+                }
+                "neg" => {
+                    let mut x = a();
+                    x.negate();
+                    x.to_j()
+                }
+                "dbl" => {
+                    let mut x = a();
+                    x.double();
+                    x.to_j()
+                }
+                "sqr" => {
+                    let mut x = a();
+                    x.square();
+                    x.to_j()
+                }
+                "inv" => opt_j(a().inverse()),
+                "pow" => a().pow(exp_words(op)).to_j(),
+                "is_zero" => json!(a().is_zero()),
+                "eq" => json!(a() == b()),
+                "frob" => {
+                    // k is a nat (may be as large as usize::MAX)
+                    let k = nat_to_words(&op["k"], 1).unwrap()[0] as usize;
+                    let mut x = a();
+                    x.frobenius_map(k);
+                    x.to_j()
+                }
+                "zero" => <$F>::zero().to_j(),
+                "one" => <$F>::one().to_j(),
+                _ => return None,
+            })
         }
-        "sub" => {
-            let mut x = a();
-            x.sub_assign(&b());
-            x.to_j()
-        }
-        "mul" => {
-            let mut x = a();
-            x.mul_assign(&b());
-            x.to_j()
-        }
-        "neg" => {
-            let mut x = a();
-            x.negate();
-            x.to_j()
-        }
-        "dbl" => {
-            let mut x = a();
-            x.double();
-            x.to_j()
-        }
-        "sqr" => {
-            let mut x = a();
-            x.square();
-            x.to_j()
-        }
-        "inv" => opt_j(a().inverse()),
-        "pow" => a().pow(exp_words(op)).to_j(),
-        "is_zero" => json!(a().is_zero()),
-        "eq" => json!(a() == b()),
-        "frob" => {
-            // k is a nat (may be as large as usize::MAX)
-            let k = nat_to_words(&op["k"], 1).unwrap()[0] as usize;
-            let mut x = a();
-            x.frobenius_map(k);
-            x.to_j()
-        }
-        "zero" => F::zero().to_j(),
-        "one" => F::one().to_j(),
-        _ => return None,
-    })
+    };
 }
 
-fn sqrt_common<F: SqrtField + J>(f: &str, op: &Value) -> Option<Value> {
-    let a = || F::from_j(&op["a"]);
-    Some(match f {
-        "sqrt" => opt_j(a().sqrt()),
-        "legendre" => leg_j(a().legendre()),
-        _ => return None,
-    })
+macro_rules! sqrt_common {
+    ($fname:ident, $F:ty) => {
+        fn $fname(f: &str, op: &Value) -> Option<Value> {
+            let a = || <$F>::from_j(&op["a"]);
+            Some(match f {
+                "sqrt" => opt_j(a().sqrt()),
+                "legendre" => leg_j(a().legendre()),
+                _ => return None,
+            })
+        }
+    };
 }
 
-fn sgn_common<F: Signum0 + J>(f: &str, op: &Value) -> Option<Value> {
-    let a = || F::from_j(&op["a"]);
-    Some(match f {
-        "sgn0" => sgn_j(a().sgn0()),
-        "negate_if" => {
-            let mut x = a();
-            x.negate_if(sgn_of(&op["s"]));
-            x.to_j()
+macro_rules! sgn_common {
+    ($fname:ident, $F:ty) => {
+        fn $fname(f: &str, op: &Value) -> Option<Value> {
+            let a = || <$F>::from_j(&op["a"]);
+            Some(match f {
+                "sgn0" => sgn_j(a().sgn0()),
+                "negate_if" => {
+                    let mut x = a();
+                    x.negate_if(sgn_of(&op["s"]));
+                    x.to_j()
+                }
+                _ => return None,
+            })
         }
-        _ => return None,
-    })
+    };
 }
+
+
+// concrete instantiations (no generics: see the comment on the macros)
+field_common!(fc_fq, Fq);
+field_common!(fc_fr, Fr);
+field_common!(fc_fq2, Fq2);
+field_common!(fc_fq6, Fq6);
+field_common!(fc_fq12, Fq12);
+sqrt_common!(sq_fq, Fq);
+sqrt_common!(sq_fr, Fr);
+sqrt_common!(sq_fq2, Fq2);
+sgn_common!(sg_fq, Fq);
+sgn_common!(sg_fq2, Fq2);
 
 macro_rules! prime_ops {
     ($name:ident, $F:ty, $R:ty, $mkrepr:ident, $nw:expr) => {
@@ -235,13 +260,13 @@ repr_ops!(fr_repr_ops, FrRepr, fr_repr, 32);
 pub fn exec_fp(op: &Value) -> Value {
     let f = op["fn"].as_str().unwrap();
     match op["f"].as_str().unwrap() {
-        "Fq" => field_common::<Fq>(f, op)
-            .or_else(|| if f == "ypair" { Some(ypair::<Fq>(op)) } else { None })
-            .or_else(|| sqrt_common::<Fq>(f, op))
-            .or_else(|| sgn_common::<Fq>(f, op))
+        "Fq" => fc_fq(f, op)
+            .or_else(|| if f == "ypair" { Some(ypair_fq(op)) } else { None })
+            .or_else(|| sq_fq(f, op))
+            .or_else(|| sg_fq(f, op))
             .or_else(|| fq_ops(f, op)),
-        "Fr" => field_common::<Fr>(f, op)
-            .or_else(|| sqrt_common::<Fr>(f, op))
+        "Fr" => fc_fr(f, op)
+            .or_else(|| sq_fr(f, op))
             .or_else(|| fr_ops(f, op)),
         x => panic!("unknown prime field {}", x),
     }
@@ -257,17 +282,23 @@ pub fn exec_repr(op: &Value) -> Value {
     }
 }
 
-fn ypair<F: Field + Signum0 + Ord + J>(op: &Value) -> Value {
-    let a = F::from_j(&op["a"]);
+macro_rules! ypair_impl {
+    ($fname:ident, $F:ty) => {
+        fn $fname(op: &Value) -> Value {
+    let a = <$F>::from_j(&op["a"]);
     let mut n = a;
     n.negate();
     json!({"neg": n.to_j(), "cmp": ord_j(a.cmp(&n)), "s": sgn_j(a.sgn0()), "sn": sgn_j(n.sgn0())})
+        }
+    };
 }
+ypair_impl!(ypair_fq, Fq);
+ypair_impl!(ypair_fq2, Fq2);
 
 fn fq2_ops(f: &str, op: &Value) -> Option<Value> {
     let a = || Fq2::from_j(&op["a"]);
     Some(match f {
-        "ypair" => ypair::<Fq2>(op),
+        "ypair" => ypair_fq2(op),
         "mul_by_nonresidue" => {
             let mut x = a();
             x.mul_by_nonresidue();
@@ -329,12 +360,12 @@ fn fq12_ops(f: &str, op: &Value) -> Option<Value> {
 pub fn exec_ext(op: &Value) -> Value {
     let f = op["fn"].as_str().unwrap();
     match op["f"].as_str().unwrap() {
-        "Fq2" => field_common::<Fq2>(f, op)
-            .or_else(|| sqrt_common::<Fq2>(f, op))
-            .or_else(|| sgn_common::<Fq2>(f, op))
+        "Fq2" => fc_fq2(f, op)
+            .or_else(|| sq_fq2(f, op))
+            .or_else(|| sg_fq2(f, op))
             .or_else(|| fq2_ops(f, op)),
-        "Fq6" => field_common::<Fq6>(f, op).or_else(|| fq6_ops(f, op)),
-        "Fq12" => field_common::<Fq12>(f, op).or_else(|| fq12_ops(f, op)),
+        "Fq6" => fc_fq6(f, op).or_else(|| fq6_ops(f, op)),
+        "Fq12" => fc_fq12(f, op).or_else(|| fq12_ops(f, op)),
         x => panic!("unknown extension field {}", x),
     }
     .unwrap_or_else(|| panic!("unknown ext fn {}", f))
